@@ -24,6 +24,11 @@ CLAIMED = {
    text="No feasible panic in the hash/policy/key-hash/script-address constructors for byte strings of every length 0..33, in integer-to-data conversion for every i128, in mint/burn amounts for every i128. CBMC checks every implicit panic site (unwrap, index, overflow, slice copy) on the compiled code.",
    note="Kani/CBMC; stubs: std::fmt::format, hex::encode, ByronAddress::to_vec.",
    design="§3 C14"),
+ "C15": dict(
+   technique="symbolic execution of the MIR of CanonicalAssets (mirsym -> z3): real bodies vs. pointwise specifications, hash map as association list with symbolic presence",
+   text="For 4 asset classes with symbolic presence and symbolic i128 amounts, the real add/sub/neg, every constructor, contains_total/contains_some/is_empty/is_empty_or_negative/is_only_naked, == and the AssetExpr round trip are executed from rustc's MIR and shown equal to their pointwise specification on every path (z3 unsat per obligation); a panic path is accepted only where an i128 operation genuinely overflows. Bounded model checking: class universe of 4, one call per harness.",
+   note="mirsym interpreter and its std models (HashMap, iterators, Option) are the trusted base; keys are concrete distinct byte strings.",
+   design="§3 C15"),
 }
 
 NA = {
